@@ -511,7 +511,14 @@ func (br *batchRunner) runBatch(dir string, inputs []*c07Input) []c07Result {
 	for gen := 0; start < len(inputs); gen++ {
 		logPath := filepath.Join(dir, fmt.Sprintf("child-%d.log", gen))
 		remaining := len(inputs) - start
+		// watchdog for the whole child: generous, and it must cover the per-input watchdogs of slow (deep nesting) inputs
 		budget := time.Duration(120+remaining)*time.Second + time.Duration(br.watchdog)*time.Millisecond*2
+
+		for _, in := range inputs[start:] {
+			if in.WdMs > 0 {
+				budget += time.Duration(in.WdMs) * time.Millisecond
+			}
+		}
 
 		ctx, cancel := context.WithTimeout(context.Background(), budget)
 		cmd := exec.CommandContext(ctx, selfExe(), "-test.run", "^TestC07Worker$", "-test.timeout", "0", "-test.count", "1")
@@ -724,6 +731,7 @@ var c07Probes = []struct{ key, mode, src string }{
 	{"panic:bytecode.greaterThanOrEqualByteCode", "run", "import \"fmt\"\nfunc main() {\n fmt.Println(1 >= float64)\n}\n"},
 	{"panic:bytecode.lessThanByteCode", "run", "import \"fmt\"\nfunc main() {\n fmt.Println(1 < float64)\n}\n"},
 	{"panic:bytecode.lessThanOrEqualByteCode", "run", "import \"fmt\"\nfunc main() {\n fmt.Println(1 <= float64)\n}\n"},
+	{"panic:data.TypeOf", "test", "@test \"probe\"\n{\n x := T.assert.foo\n fmt.Println(x)\n}\n"},
 	{"panic:builtins.Make", "run", "import \"fmt\"\nfunc main() {\n a := make([]int, 9223372036854775807)\n fmt.Println(len(a))\n}\n"},
 	{"fatal:out-of-memory:builtins.Make", "run", "import \"fmt\"\nfunc main() {\n a := make([]int, 1099511627776)\n fmt.Println(len(a))\n}\n"},
 	{"panic:bytecode.exponentByteCode", "run", "import \"fmt\"\nfunc main() {\n fmt.Println(2.5 ^ 2)\n}\n"},
